@@ -124,7 +124,11 @@ func checkC04(ctx *Ctx, c *Case) error {
 	prefix := unhex(c.arg("prefix"))
 	pristine := append([]byte{}, prefix...)
 	capExtra := []int{0, 1, size / 2, size + 16}[c.argInt("cap")%4]
-	buf := make([]byte, len(prefix), len(prefix)+capExtra)
+	buf := make([]byte, len(prefix)+capExtra)
+	for i := range buf {
+		buf[i] = 0xAA // whatever was in the buffer before: spare capacity is not zeroed memory
+	}
+	buf = buf[:len(prefix)]
 	copy(buf, prefix)
 	res, err := opts.MarshalAppend(buf, p)
 	if err != nil {
@@ -163,7 +167,10 @@ func checkC04(ctx *Ctx, c *Case) error {
 		if so.Size != size {
 			return fmt.Errorf("ProtoMethods.Size(flags=%d)=%d, proto.Size=%d", fl, so.Size, size)
 		}
-		mb := append([]byte{}, prefix...)
+		mb := append(make([]byte, 0, len(prefix)+size+8), prefix...)
+		for i := len(mb); i < cap(mb); i++ {
+			mb[:cap(mb)][i] = 0x55
+		}
 		mo, err := meth.Marshal(protoiface.MarshalInput{Message: m, Buf: mb, Flags: fl})
 		if err != nil {
 			return fmt.Errorf("ProtoMethods.Marshal(flags=%d) failed: %v", fl, err)
